@@ -454,7 +454,7 @@ fn main() {
                             run(ctx, "or|n=3|all-irredundant-pairs", 3, &[a.clone(), b.clone()], &[Tok::Leaf(0), Tok::Leaf(1), Tok::Or]);
                         }
                     } else {
-                        for _ in 0..24 {
+                        for _ in 0..60 {
                             let b = rng.pick(&anti3);
                             run(ctx, "and|n=3|sampled-irredundant-pairs", 3, &[a.clone(), b.clone()], &[Tok::Leaf(0), Tok::Leaf(1), Tok::And]);
                             run(ctx, "or|n=3|sampled-irredundant-pairs", 3, &[a.clone(), b.clone()], &[Tok::Leaf(0), Tok::Leaf(1), Tok::Or]);
@@ -471,7 +471,7 @@ fn main() {
                 }
             }
             "random" => {
-                let reps = if thorough { 4000 } else { 300 };
+                let reps = if thorough { 20000 } else { 400 };
                 for _ in 0..reps {
                     let nn = rng.range(0, 10);
                     let a = random_list(nn, &mut rng, 12);
